@@ -179,7 +179,7 @@ def gen_history(rng, profile="mixed", nops=None, nofun=False, attrdict=False, ke
             elif k < 0.86 and pool:
                 ops.append(["set", t, ["expr", gen_expr(rng, pool, okc)]])
             elif k < 0.95:
-                ops.append(["inplace", t, rng.choice("+-*"), gen_value(rng, values, -3, 3)])
+                ops.append(["inplace", t, rng.choice("+-*"), rng.randint(-3, 3)])       # literal operands stay ints (how literals print is C11's subject)
             else:
                 ops.append(["unregister", t])
             continue
@@ -188,7 +188,7 @@ def gen_history(rng, profile="mixed", nops=None, nofun=False, attrdict=False, ke
         elif k < 0.72 and pool:
             ops.append(["set", t, ["expr", gen_expr(rng, pool, okc if nested else [])]])
         elif k < 0.80:
-            ops.append(["inplace", t, rng.choice("+-*"), gen_value(rng, values, -3, 3)])
+            ops.append(["inplace", t, rng.choice("+-*"), rng.randint(-3, 3)])       # literal operands stay ints (how literals print is C11's subject)
         elif k < 0.86:
             ops.append(["unregister", t])
         elif k < 0.90 and pool and profile not in ("flat",) and not nofun:
@@ -209,7 +209,8 @@ def gen_history(rng, profile="mixed", nops=None, nofun=False, attrdict=False, ke
             tg = [p for p in leaves if p != pool[0]][:]
             rng.shuffle(tg)
             kid = f"kn{funs}" if rng.random() < 0.6 or used_id(tg[0]) else {"ref": tg[0]}
-            ops.append(["regknob", kid, pool[0], [[rng.randint(1, 3), p] for p in tg[:rng.randint(1, 3)]]])
+            ops.append(["regknob", kid, pool[0], [[rng.randint(1, 5), p] for p in tg[:rng.choice([1, 2, 3, 5, 6, 7])]],
+                        rng.choice(["list", "set"])])
         elif k < 0.95 and pool and keys != "exotic":        # numpy / enum keys do not print as loadable text
             ops.append(["load", [[t, gen_expr(rng, pool, [])], [rng.choice(leaves), gen_expr(rng, pool, [])]], rng.random() < 0.6])
         elif k < 0.97:
@@ -243,6 +244,26 @@ def chain_case(n, reverse=False, fan=0):
     if reverse:
         defs = defs[::-1]
     return {"store": spec, "ops": defs + [["set", ["c", ["i", "v0"]], ["plain", 5]]]}
+
+
+def wide_case(rng, width, second=None):
+    """one source `a` with `width` DIRECT dependants (more than any small-set threshold of the implementation), a third of
+    which also read an earlier direct dependant (triangles a->b, a->c, b->c), plus second-level leaves reading two of
+    them; definitions given in random order; the last operation assigns the source"""
+    second = width // 8 if second is None else second
+    R = lambda k: ["c", ["i", k]]
+    items = [["a", 1]] + [[f"d{i}", 0] for i in range(width)] + [[f"e{i}", 0] for i in range(second)]
+    defs = []
+    for i in range(width):
+        e = ["bin", rng.choice("+*"), ["ref", R("a")], ["const", rng.randint(1, 4)]]
+        if i and rng.random() < 0.33:
+            e = ["bin", "+", e, ["ref", R(f"d{rng.randrange(i)}")]]
+        defs.append(["set", R(f"d{i}"), ["expr", e]])
+    for i in range(second):
+        defs.append(["set", R(f"e{i}"), ["expr", ["bin", "-", ["ref", R(f"d{rng.randrange(width)}")], ["ref", R(f"d{rng.randrange(width)}")]]]])
+    rng.shuffle(defs)
+    ops = defs + [["set", R("a"), ["plain", rng.randint(2, 9)]], ["inplace", R("a"), "+", 1], ["set", R("a"), ["plain", rng.randint(-9, -2)]]]
+    return {"store": [["c", {"kind": "dict", "items": items}]], "ops": ops}
 
 
 # ------------------------------------------------------------------ emission
